@@ -21,7 +21,7 @@ SPEC_OPS = None
 
 TIERS = {
     #            symtab hist len, symtab invariant len, random programs, TLC bound (bytes of code), VM step limit
-    "quick":    dict(symscaled=[3, 300], symlen=6, syminv=8, nrandom=800, maxtlc=2500, limit=6000, scaled_max=7000, batch=45000),
+    "quick":    dict(symscaled=[3, 300], symlen=6, syminv=8, nrandom=1200, maxtlc=2500, limit=6000, scaled_max=7000, batch=45000),
     "thorough": dict(symscaled=[3, 300, 70000], symlen=7, syminv=12, nrandom=10000, maxtlc=30000, limit=30000, scaled_max=10 ** 9, batch=60000),
 }
 
